@@ -69,6 +69,7 @@ type (
 		taskCallCount        map[string]*int32
 		mkdirMutexMap        map[string]*sync.Mutex
 		executionHashes      map[string]*taskExecution
+		executionWaits       map[string][]string // which executions each deduplicated execution is waiting for
 		executionHashesMutex sync.Mutex
 		watchedDirs          *xsync.MapOf[string, bool]
 	}
@@ -80,8 +81,9 @@ type (
 	// (run: once / when_changed). Callers that arrive later wait for done to
 	// be closed and then observe err.
 	taskExecution struct {
-		done chan struct{}
-		err  error
+		done     chan struct{}
+		err      error
+		finished bool // guarded by executionHashesMutex
 	}
 )
 
@@ -104,6 +106,7 @@ func NewExecutor(opts ...ExecutorOption) *Executor {
 		taskCallCount:        map[string]*int32{},
 		mkdirMutexMap:        map[string]*sync.Mutex{},
 		executionHashes:      map[string]*taskExecution{},
+		executionWaits:       map[string][]string{},
 		executionHashesMutex: sync.Mutex{},
 	}
 	e.Options(opts...)
